@@ -163,7 +163,8 @@ def run_kani(work, build, harnesses, jobs, tier, outdir, tagname=None):
     with open(logp, "w") as lf:
         try:
             p = subprocess.run(cmd, cwd=work, env=base_env(outdir), stdout=lf, stderr=subprocess.STDOUT,
-                               preexec_fn=limit_mem(registry.MEM_GB), timeout=tmax * 3 + 900)
+                               preexec_fn=limit_mem(float(os.environ.get("VERIF_MEM_GB", registry.MEM_GB))),
+                               timeout=tmax * 3 + 900)
             rc = p.returncode
         except subprocess.TimeoutExpired:
             rc = 124
@@ -351,6 +352,8 @@ def cache_get(key, h):
 def cache_put(key, h, r):
     if r.get("status") not in ("success", "failure"):
         return
+    if r.get("status") == "failure" and not r.get("failed"):
+        return  # a crash / out-of-memory run without any decided failing check is not a result
     if r.get("undetermined") or any("unwinding assertion" in f["description"] for f in r.get("failed", [])):
         return
     d = os.path.join(SCRATCH, "cache")
